@@ -6,8 +6,9 @@
    documents identity-disjoint, observations equal to solo runs in fresh processes - the
    projection comparison is evaluated by Check/C20.v); CPython's scheduling of bytecode
    inside a step is not modelled. *)
-From Coq Require Import List Arith Bool.
-From PC Require Import Model.Isolation Proofs.Isolation.
+From Coq Require Import List Arith Bool NArith.
+From PC Require Import Base.Outcome Base.Py Base.Libs Gen.Params Model.Errors.
+From PC Require Import Model.Isolation Proofs.Isolation Model.IsolationSteps Proofs.IsolationSteps.
 Import ListNotations.
 
 Section C20.
@@ -69,4 +70,95 @@ Qed.
 Example C20_leak_refutes :
   outputs_of 0 (snd (run tgstep_leaky tstate0 tsched)) <>
   outputs_of 0 (snd (run tgstep_leaky tstate0 (project 0 tsched))).
+Proof. vm_compute. discriminate. Qed.
+
+(* ================================================================================================
+   CONCRETE steps.  Any step that has the shape  G -> D_i -> D_i * output  (reads the global state
+   and its own document, returns its own document) meets the footprint discipline once lifted to the
+   whole state: PROVED, so C20_projection holds for such steps without hypotheses.  The concrete
+   instance: G = namespace registry + element factory namespace + class defaults; D = ignore mask,
+   recorded errors (the C08 family's Model.Errors), tagger namespace, ids; steps = ignoreErrors,
+   handleError, setting the tagger, tag look-up, making up a surface id, E(tag), the written
+   prefix, reading a class default.  What remains measured: that the Python operations have this
+   shape (module-level state constant, nothing shared, observations equal solo runs). *)
+Theorem C20_lifted_steps_meet_discipline : forall G D O op (step : op -> G -> D -> D * O),
+  (forall o i s, fst (fst (lift step o i s)) = fst s) /\
+  (forall o i s j, j <> i -> snd (fst (lift step o i s)) j = snd s j) /\
+  (forall o i g ds ds', ds i = ds' i ->
+     snd (fst (lift step o i (g, ds))) i = snd (fst (lift step o i (g, ds'))) i /\
+     snd (lift step o i (g, ds)) = snd (lift step o i (g, ds'))).
+Proof.
+  intros. split; [apply lift_global | split; [apply lift_others | apply lift_own]].
+Qed.
+Print Assumptions C20_lifted_steps_meet_discipline.
+
+(* for every schedule of the concrete steps over any number of documents: document i ends as if
+   its operations had run alone, with the same outputs, and the global state is untouched *)
+Theorem C20_concrete_projection : forall i (sc : sched cop) (s : state cglobal cdocst),
+  snd (fst (run cgstep s sc)) i = snd (fst (run cgstep s (project i sc))) i /\
+  outputs_of i (snd (run cgstep s sc)) = outputs_of i (snd (run cgstep s (project i sc))) /\
+  fst (fst (run cgstep s sc)) = fst s.
+Proof.
+  intros i sc s.
+  destruct (C20_projection cglobal cdocst cout cop cgstep (lift_global _ _ _ _ dstep) (lift_others _ _ _ _ dstep)
+              (lift_own _ _ _ _ dstep) i sc s) as [A B].
+  split; [exact A | split; [exact B|]].
+  apply (C20_global_constant cglobal cdocst cout cop cgstep (lift_global _ _ _ _ dstep)).
+Qed.
+Print Assumptions C20_concrete_projection.
+
+(* ... and alone means: its own operations applied one after the other to its own state *)
+Theorem C20_concrete_is_solo : forall i (sc : sched cop) g (ds : nat -> cdocst),
+  snd (fst (run cgstep (g, ds) sc)) i = fst (solo dstep g (ds i) (map snd (project i sc))) /\
+  outputs_of i (snd (run cgstep (g, ds) sc)) = snd (solo dstep g (ds i) (map snd (project i sc))).
+Proof.
+  intros i sc g ds.
+  destruct (C20_concrete_projection i sc (g, ds)) as [A [B _]].
+  rewrite A, B. rewrite (project_of_seq cop i sc) at 1 3.
+  apply (run_own_is_solo cglobal cdocst cout cop dstep i (map snd (project i sc)) g ds).
+Qed.
+Print Assumptions C20_concrete_is_solo.
+
+(* masks, recorded errors and made-up ids never leak: after ANY schedule they are exactly what the
+   document's own ignoreErrors / handleError / id-making operations produce, in their order *)
+Theorem C20_concrete_no_leak : forall i (sc : sched cop) g (ds : nat -> cdocst),
+  let d := snd (fst (run cgstep (g, ds) sc)) i in
+  let own := map snd (project i sc) in
+  dm_mask d = run_ignore (dm_mask (ds i)) (own_ignores own) /\
+  dm_errors d = dm_errors (ds i) ++ own_handled own /\
+  dm_ids d = dm_ids (ds i) ++ own_made own.
+Proof.
+  intros i sc g ds d own. unfold d.
+  rewrite (proj1 (C20_concrete_is_solo i sc g ds)).
+  split; [apply solo_mask | split; [apply solo_errors | apply solo_ids]].
+Qed.
+Print Assumptions C20_concrete_no_leak.
+
+(* Non-vacuity: three documents - a 1.4.1 one masking broken references, a 1.5 one masking nothing,
+   one in another namespace - with interleaved ignoreErrors / handleError / tag / id / prefix steps *)
+Definition cg0 : cglobal := CG [(141, 0)]%N 141%N [(7, 0)]%N.
+Definition cd0 : cdocst := CD [] [] 141%N [].
+Definition csched : sched cop :=
+  [(0, OSetTagger 141%N); (1, OSetTagger 150%N); (0, OIgnore (IAdd [MCls K_DaeBrokenRefError]));
+   (1, OHandle DaeBrokenRef); (0, OHandle DaeBrokenRef); (2, OSetTagger 9%N); (0, OHandle DaeMalformed);
+   (1, OTag 5%N); (0, OMakeSurface 20%N); (2, OWrittenPrefix); (1, OMakeSurface 20%N); (0, OWrittenPrefix);
+   (2, OIgnore IClear); (1, OElement 3%N); (0, OTag 5%N)].
+
+Example C20_concrete_nonvacuous :
+  outputs_of 0 (snd (run cgstep (cg0, fun _ => cd0) csched)) =
+    [UNone; UNone; URaised None; URaised (Some DaeMalformed); UId 41%N; UPrefix (Some 0%N); UQName 141%N 5%N] /\
+  outputs_of 1 (snd (run cgstep (cg0, fun _ => cd0) csched)) =
+    [UNone; URaised (Some DaeBrokenRef); UQName 150%N 5%N; UId 41%N; UQName 141%N 3%N] /\
+  outputs_of 2 (snd (run cgstep (cg0, fun _ => cd0) csched)) = [UNone; UPrefix None; UNone] /\
+  dm_errors (snd (fst (run cgstep (cg0, fun _ => cd0) csched)) 0) = [DaeBrokenRef; DaeMalformed] /\
+  dm_errors (snd (fst (run cgstep (cg0, fun _ => cd0) csched)) 1) = [DaeBrokenRef] /\
+  dm_mask (snd (fst (run cgstep (cg0, fun _ => cd0) csched)) 1) = [].
+Proof. vm_compute. repeat split; reflexivity. Qed.
+
+(* the shape is needed: numbering made-up ids from a module-level counter (seeded change C20-bm3)
+   is not a lifted step, and the id document 1 gets depends on document 0 having made one before *)
+Example C20_counter_refutes :
+  let s0 : state (cglobal * N) cdocst := ((cg0, 1%N), fun _ => cd0) in
+  outputs_of 1 (snd (run leaky_counter_step s0 [(0, OMakeSurface 20%N); (1, OMakeSurface 20%N)])) <>
+  outputs_of 1 (snd (run leaky_counter_step s0 (project 1 [(0, OMakeSurface 20%N); (1, OMakeSurface 20%N)]))).
 Proof. vm_compute. discriminate. Qed.
